@@ -234,3 +234,4 @@ def chk_order(rec, be):
 import checkers_rel  # noqa: E402,F401  (registers the relational checkers)
 import checkers_func  # noqa: E402,F401
 import checkers_multi  # noqa: E402,F401
+import checkers_io  # noqa: E402,F401
